@@ -990,7 +990,8 @@ def _r7_validator(ctx):
     from zcstatic import absint as A
     fn = m.fn("ZConfig.validator.main")
     paths = A.Interp(fn, P, loop_policy=lambda n: "twice",
-                     exact_loops=True).paths()
+                     exact_loops=True,
+                     inline=lambda f: f.module is fn.module).paths()
     n_fail = 0
     n_checked = 0
     seen_two = False
@@ -1054,7 +1055,8 @@ def _r7_validator(ctx):
         seen_f.add(f.qualname)
         for call, callees in P.calls_in(f):
             for c in callees:
-                if c.kind == "repo" and A_.is_unknown_helper(c.fn):
+                if c.kind == "repo" and (A_.is_unknown_helper(c.fn)
+                                         or c.fn.module is fn.module):
                     todo.append(c.fn)
             if not (dotted(call.func) or "").endswith(
                     ("loadConfigFile", "loadConfig")):
